@@ -530,7 +530,8 @@ def standard_solver(prog: Program, rep) -> None:
     rep.check(ok, "standard-solver-wiring", cd.qualname, short(st[0]) if st else "", "the system matrix is func.deriv(jac, hess, active_set) of the same func and active set", cd.loc())
     ud = prog.func("pygradflow.step.solver.standard_step_solver.StandardStepSolver.update_derivs")
     itq = [p for p in ud.params if p != "self"][0]
-    st = {U(t): U(x.value) for x in own_nodes(ud.node) if isinstance(x, ast.Assign) for t in x.targets}
+    fu = facts_for(ud)
+    st = {U(t): U(fu.resolved(x, x.value)) for x in own_nodes(ud.node) if isinstance(x, ast.Assign) for t in x.targets}
     ok = st.get("self._jac") == f"copy.copy({itq}.aug_lag_deriv_xy())"
     rep.check(ok, "standard-solver-wiring", ud.qualname, "self._jac", "the Jacobian block is the constraint Jacobian of the same iterate", ud.loc())
 
